@@ -134,6 +134,12 @@ func evaluate(t vlib.TB, sub string, s *edwards.Scheme, kind string, pk, msg, si
 	vlib.Eval(sub)
 	vd := s.Verify(pk, msg, sig, ctx)
 	exp := vd.Expect()
+	if s.CtxMust && len(ctx) == 0 && exp != edwards.MustReject {
+		// RFC 8032 lets Ed25519ctx hash dom2(0,"") for an empty context; circl documents that
+		// VerifyWithCtx refuses a missing context, so refusal is the expectation at this entry point
+		exp = edwards.MustReject
+		vd.MustReject = "empty-context-refused-by-documentation"
+	}
 	vlib.Class(sub, "expect="+exp)
 	vlib.Class(sub, "kind="+kind+"/"+exp+"/"+reasonClass(vd))
 	var r verifyResult
@@ -144,11 +150,6 @@ func evaluate(t vlib.TB, sub string, s *edwards.Scheme, kind string, pk, msg, si
 	detail := func() string {
 		return fmt.Sprintf("kind=%s expectation=%s (%s: cofactorless=%v cofactored=%v A-in-subgroup=%v) circl=%v\npk=%x\nmsg=%x\nctx=%x (len %d)\nsig=%x",
 			kind, exp, vd.Reason(), vd.Cofactorless, vd.Cofactored, vd.ASubgroup, r.ok, pk, msg, ctx, len(ctx), sig)
-	}
-	if r.hasAny && r.okAny != r.ok {
-		if vlib.Report(t, "C05/verify/"+s.Name+"/VerifyAny-differs", detail()) {
-			return
-		}
 	}
 	switch exp {
 	case edwards.MustReject:
@@ -168,6 +169,11 @@ func evaluate(t vlib.TB, sub string, s *edwards.Scheme, kind string, pk, msg, si
 			vlib.Class(sub, "either-gap:circl-accepts/"+vd.Reason())
 		} else {
 			vlib.Class(sub, "either-gap:circl-rejects/"+vd.Reason())
+		}
+	}
+	if r.hasAny && r.okAny != r.ok {
+		if vlib.Report(t, "C05/verify/"+s.Name+"/VerifyAny-differs", detail()) {
+			return
 		}
 	}
 	// consistency of the reference with crypto/ed25519 where the latter is strict
@@ -491,6 +497,8 @@ var verifyKinds = []string{
 	"honest",
 	"alter-S", "alter-S", "alter-S-of-forged",
 	"other-msg", "other-ctx", "other-variant",
+	"cross-variant-matrix", "cross-variant-matrix",
+	"consistent-altered-R", "consistent-altered-R", "consistent-altered-A",
 	"bitflip-sig", "bitflip-pk",
 	"wrong-length",
 	"ctx-too-long",
@@ -583,6 +591,81 @@ func verifyCase(t *rapid.T, s *edwards.Scheme) {
 		}
 		sig := honestSig(o, km, msg, cx)
 		evaluate(t, sub, s, kind, km.pk, msg, sig, ctx)
+	case "cross-variant-matrix":
+		// a signature made in any variant of the curve (also the same one) under a signer context from
+		// {empty, 1, 255 octets, drawn}, presented to this variant's entry points under a verifier context from
+		// {the signer's, empty, 255, 256 octets}; the reference decides
+		var fam []*edwards.Scheme
+		for _, o := range edwards.Schemes {
+			if o.C == c {
+				fam = append(fam, o)
+			}
+		}
+		o := fam[pick(t, len(fam), "signer")]
+		mk := func(n int, l string) []byte {
+			b := make([]byte, n)
+			if n > 0 {
+				vlib.FillRandom(t, b, l)
+			}
+			return b
+		}
+		var sctx []byte
+		if o.Dom {
+			switch pick(t, 4, "sctx") {
+			case 0:
+				sctx = nil
+			case 1:
+				sctx = mk(1, "sctx1")
+			case 2:
+				sctx = mk(255, "sctx255")
+			default:
+				sctx = append([]byte{}, ctx...)
+			}
+		}
+		sdom, _ := o.DomPrefix(sctx)
+		sig := o.SignCore(km.a, km.prefix, km.pk, sdom, o.PH(msg))
+		var vctx []byte
+		if s.Dom {
+			switch pick(t, 5, "vctx") {
+			case 0, 1:
+				vctx = sctx
+			case 2:
+				vctx = nil
+			case 3:
+				vctx = append(append([]byte{}, sctx...), mk(255, "pad")...)[:255]
+			default:
+				vctx = append(append([]byte{}, sctx...), mk(256, "pad")...)[:256]
+			}
+		}
+		evaluate(t, sub, s, fmt.Sprintf("%s/signed-as-%s/sctx%d/vctx%d", kind, o.Name, len(sctx), len(vctx)), km.pk, msg, sig, vctx)
+	case "consistent-altered-R", "consistent-altered-A":
+		// signatures MADE by the key holder for an altered encoding of R (or of A): the altered octets are
+		// what is hashed, S = r + k*a is solved for that transcript. Only the comparison of the received
+		// R (all of its octets) with the recomputed point, resp. the decoding of A, can reject them.
+		r := drawScalar(t, c, "r")
+		renc := c.Encode(c.ScalarMult(r, c.Base()))
+		aenc := append([]byte{}, km.pk...)
+		target := renc
+		if kind == "consistent-altered-A" {
+			target = aenc
+		}
+		alts := []string{"sign-bit"}
+		if n == 57 {
+			alts = append(alts, "unused-bits", "unused-bits", "sign-bit+unused-bits")
+		}
+		alt := alts[pick(t, len(alts), "ralt")]
+		if alt != "unused-bits" {
+			target[n-1] ^= 0x80
+		}
+		if alt != "sign-bit" {
+			target[n-1] |= byte(1 + pick(t, 127, "rjunk"))
+		}
+		k := s.Challenge(dom, renc, aenc, s.PH(msg))
+		S := new(big.Int).Mul(k, km.a)
+		S.Add(S, r)
+		S.Mod(S, c.L)
+		sig := append(append([]byte{}, renc...), vlib.LE(S, n)...)
+		evaluate(t, sub, s, kind+"/"+alt, aenc, msg, sig, ctx)
 	case "bitflip-sig":
 		sig := honestSig(s, km, msg, ctx)
 		i := rapid.IntRange(0, 8*len(sig)-1).Draw(t, "bit")
